@@ -51,10 +51,29 @@ Round 4 (each stated on a normal form, see the section comments of C01_helpers):
   * a loop over a local Vec / VecDeque that was filled in place (push / extend / pushes in an exhaustive loop, also on top of
     a `vec![..]` literal) runs its body for exactly those elements (built_alts); a collection that is also modified in a way
     that is not followed is opaque — no MUST effect, an unknown element for MAY — and the rows depending on it are UNPROVEN.
+
+Round 5 (again on normal forms; helpers documented in C01_helpers: _READER_DOC, _READ_BUFFER_DOC, _NESTED_DOC, _OPEN_MODE_DOC):
+  * the layer reader (R10) is read by its leaf outcomes split on every helper of its crate that a returned value or a
+    dominating test depends on — a generic shell over a non-generic helper returning Option<(path, text)>, a private
+    Presence enum, an `io::Result<bool>` "exists after normalising" helper in another module, `opt.map(parse).transpose()`;
+    a contradicted boolean answer of a helper is no outcome (C01_helpers.decided).
+  * "the text of file P" is `fs::read_to_string(P)`, `io::read_to_string(File::open(P)?)`, `String::from_utf8(fs::read(P)?)`
+    or a local buffer filled by one checked `Read::read_to_string(&mut buf)` on `File::open(P)?` (also through a BufReader /
+    a read-only OpenOptions, also when the `&mut buf` is reborrowed); helpers exposed by applying a closure are inlined again.
+    When the layer's TOML is visibly read but the value is not reduced to `parse(text)`, R4 / R1 are UNPROVEN, not VIOLATED.
+  * the type a value is read as is followed through tuple components and fields of a private, non-generic carrier struct;
+    assignments through nested fields of such a carrier (`c.content.types = t; write(&c.content)`) are re-attached to the
+    written value (repair_nested_updates).
+  * `OpenOptions::new().write(true).create(true).truncate(true).open(p)` + write_all is File::create / fs::write (Effects2).
+  * LayerTypes may be put together by a literal, a private constructor, functional update over one, or field assignments
+    on `LayerTypes::default()`; `!CONST` is a constant (types_fields / types_ok).
+  * "the handler" is found through private forwarders shared by the two entry points (handler_chain).
+  * an outcome whose success site lies behind a join of several decision paths (cause = phi) is not separated into rows:
+    whatever fails on it is UNPROVEN (JoinedRep) — wanted: a split of success sites at joins in outcomes2.
 """
-from .lib.effects import Effects, MUTATING, REMOVING
-from .C01_helpers import outcomes2, refine_outcomes, norm, frame_of, Effects2, WorklistPaths, UNKNOWN_ELEM
-from .C01_helpers import readers_of, gated_by_none, reader_contexts, reader_report, nested_follow_stats, toml_source, lossless_type
+from .lib.effects import Effects, MUTATING, REMOVING, vocab_lookup
+from .C01_helpers import outcomes2, refine_outcomes, norm, frame_of, Effects2, WorklistPaths, UNKNOWN_ELEM, repair_nested_updates
+from .C01_helpers import readers_of, gated_by_none, reader_contexts, reader_report, nested_follow_stats, toml_source, lossless_type, toml_read_hint
 from .lib.paths import LayerPaths, cls_str, strip, sbom_formats_covered
 from .lib.value import vstr, walk
 
@@ -94,27 +113,132 @@ def layer_ref_paths(fn, E=None):
     return WorklistPaths(is_ld, is_ln, (is_dir,), E)
 
 
+def handler_chain(prog, start):
+    """[start, .., handler]: `start` followed through pure forwarders — functions whose body makes one workspace call (three
+    or more arguments, one callee), no call of the effect vocabulary and no indirect call (nothing is decided or done there)"""
+    chain = [start] if start else []
+    f = prog.fns.get(start) if start else None
+    for _ in range(4):
+        if f is None:
+            break
+        ws = [c for c in f.calls if not c.indirect and c.name in prog.fns and prog.fns[c.name].kind != 'Closure']
+        if len(ws) != 1 or len(ws[0].args) < 3:
+            break
+        if any(c.indirect or vocab_lookup(c) or (c.decl or '') in ('std::ops::Fn::call', 'std::ops::FnMut::call_mut', 'std::ops::FnOnce::call_once')
+               for c in f.calls):
+            break
+        gs = prog.callee_fns(ws[0])
+        if len(gs) != 1 or gs[0].path in chain or gs[0].crate != f.crate:
+            break
+        chain.append(gs[0].path)
+        f = gs[0]
+    return chain
+
+
 def definition_field(entry, v, name):
     v = strip(v)
     return v[0] == 'field' and v[2] == name and v[1][0] == 'param' and v[1][1] == entry.path and v[1][2] == 2
 
 
+def types_fields(tv, sl=None):
+    """{field: value} of a LayerTypes value in whichever way it is put together: a literal, a private constructor
+    (`layer_types(definition, true)`), a literal with functional update (`LayerTypes { cache: true, ..uncached(..) }`: the
+    compiler copies the remaining fields out of the base), or a value whose fields are assigned afterwards
+    (`let mut t = LayerTypes::default(); t.launch = ..; t.build = ..; t.cache = true`) — an assigned field hides what the
+    base had in it; None with a reason when a field is assigned twice or through a nested place"""
+    ups = {}
+    v = tv
+    for _ in range(8):
+        if v[0] == 'unwrap' and len(v) == 2:
+            v = v[1]
+        elif v[0] == 'updated':
+            here = {}
+            for proj, uv in v[2]:
+                name = proj.lstrip('.')
+                if not proj.startswith('.') or '.' in name or '[' in name or '*' in name:
+                    return None, 'assignment through %s' % proj
+                if name in here and here[name] != uv:
+                    return None, 'field %s is assigned more than once' % name
+                here[name] = uv
+            for k, uv in here.items():
+                ups.setdefault(k, uv)       # an outer update is the later one
+            v = v[1]
+        else:
+            break
+    base = {}
+    if v[0] != 'agg' and sl is not None and not all(k in ups for k in ('launch', 'build', 'cache')):
+        v = strip(sl.inline_deep(v))
+    if v[0] == 'agg' and (v[1] or '').endswith('LayerTypes'):
+        base = dict(v[3])
+    elif not all(k in ups for k in ('launch', 'build', 'cache')):
+        return None, 'not a LayerTypes literal: ' + vstr(v)[:120]
+    base.update(ups)
+    return base, ''
+
+
 def types_ok(entry, tv, cache_const, sl=None):
     """tv must be LayerTypes{launch: def.launch, build: def.build, cache: const}"""
-    tv = strip(tv)
-    if tv[0] != 'agg' and sl is not None:
-        # `layer_types(definition, true)`-style private constructors are transparent
-        tv = strip(sl.inline_deep(tv))
-    if tv[0] != 'agg' or not (tv[1] or '').endswith('LayerTypes'):
-        return False, 'not a LayerTypes literal: ' + vstr(tv)[:120]
-    f = dict(tv[3])
-    if not definition_field(entry, f.get('launch', ('unknown',)), 'launch'):
+    f, why = types_fields(tv, sl)
+    if f is None:
+        # a construction that is not followed (assigned twice / through a nested place) is undecided, not wrong
+        return (None if why.startswith(('assignment through', 'field ')) else False), why
+
+    def fv(name):
+        x = f.get(name, ('unknown',))
+        if sl is not None and not definition_field(entry, x, name) and strip(x)[0] != 'const':
+            # a field copied out of a private constructor's result: `helper(d.launch, d.build).launch`
+            x = sl.inline_deep(x)
+        return x
+    if not definition_field(entry, fv('launch'), 'launch'):
         return False, 'launch <- ' + vstr(f.get('launch'))
-    if not definition_field(entry, f.get('build', ('unknown',)), 'build'):
+    if not definition_field(entry, fv('build'), 'build'):
         return False, 'build <- ' + vstr(f.get('build'))
-    if f.get('cache') != ('const', cache_const):
+    cv = strip(fv('cache'))
+    neg = False
+    while cv[0] == 'un' and len(cv) == 3 and cv[1] == 'Not':
+        # `!CACHED` on a constant is a constant
+        cv, neg = strip(cv[2]), not neg
+    if cv[0] == 'const' and isinstance(cv[1], bool) and neg:
+        cv = ('const', not cv[1])
+    if cv != ('const', cache_const):
         return False, 'cache <- %s (expected constant %s)' % (vstr(f.get('cache')), cache_const)
     return True, 'launch <- definition.launch, build <- definition.build, cache <- %s' % cache_const
+
+
+def check_types(rep, ok, rule, subject, where, why, bad_msg):
+    if ok is None:
+        rep.unproven(rule, subject, where, 'cannot read the LayerTypes value that is written: ' + why)
+    else:
+        rep.check(ok, rule, subject, where, why, bad_msg)
+
+
+def joined_outcome(o):
+    """the state returned by this outcome names a cause that is a join of several definitions (phi)"""
+    st = find_agg(o.value, 'LayerState') if o.value is not None else None
+    if st is None:
+        return False
+    cause = dict(st[3]).get('cause')
+    return cause is not None and strip(cause)[0] == 'phi'
+
+
+class JoinedRep:
+    """reporter for an outcome that joins several decision paths: failures are undecided, not breaches"""
+    NOTE = ' — this success site lies behind a join of several decision paths (its cause is chosen per path); the rule does not separate rows at joins'
+
+    def __init__(self, rep):
+        self._rep = rep
+
+    def __getattr__(self, name):
+        return getattr(self._rep, name)
+
+    def check(self, ok, rule, subject, where, ok_msg, bad_msg, detail=None):
+        if ok:
+            return self._rep.check(ok, rule, subject, where, ok_msg, bad_msg, detail) if detail is not None else \
+                self._rep.check(ok, rule, subject, where, ok_msg, bad_msg)
+        return self._rep.unproven(rule, subject, where, bad_msg + self.NOTE)
+
+    def violated(self, rule, subject, where, msg, *a):
+        return self._rep.unproven(rule, subject, where, msg + self.NOTE)
 
 
 def find_agg(v, suffix):
@@ -169,8 +293,12 @@ def run(ctx, rep):
     rep.not_decided = ['disk contents after the file-system calls', 'the lifecycle restore model', 'concurrent modification']
     from . import layer_roles
     from .lib.paths import LayerPaths as _LP
-    ROLES = layer_roles.roles(prog, sl)
+    ROLES = dict(layer_roles.roles(prog, sl))
     _LP.sbom_path_fn = ROLES['SBOM_PATH'] or _LP.sbom_path_fn
+    # "the handler" is where the layer is handled, not the first function the entry point calls: a private method both
+    # entry points share (`self.request_layer(name, (launch, build, cache), callbacks..)`) that only forwards is looked through
+    HL_CHAIN = handler_chain(prog, ROLES['STRUCT_HL'])
+    ROLES['STRUCT_HL'] = HL_CHAIN[-1] if HL_CHAIN else ROLES['STRUCT_HL']
     E = Effects2(prog, sl)
     cl = prog.find_one(CL)
     ul = prog.find_one(UL)
@@ -214,9 +342,15 @@ def run(ctx, rep):
     is_sbom = lambda c: c is not None and c[0] == 'SBOM'
     where = '%s:%d' % (cl.file, cl.line)
 
+    real_rep = rep
     for r in expected_rows:
         for idx, (o, dec) in enumerate(rows.get(r, [])):
             tag = '%s#%d' % (r, idx)
+            # a success site behind a join (`let cause = match .. { arm => { delete(..)?; Cause::A }, arm => Cause::B }; create(cause)`)
+            # is one outcome here although it ends several decision paths: what is demanded of one row is then tested
+            # against the union of those paths.  Rows are not separated at joins (not understood) — nothing found on such
+            # an outcome is a proven breach
+            rep = JoinedRep(real_rep) if joined_outcome(o) else real_rep
             site_where = '%s:%s' % (o.sites[-1].fn.file, o.sites[-1].fn.line)
             must = o.must
             summary = {'must': [('%s(%s)%s' % (e.kind, cls_str(klass(e)), ' forall ' + vstr(e.forall)[:60] if e.forall else ''))
@@ -225,7 +359,7 @@ def run(ctx, rep):
             rep.extra['decision_table'][tag] = summary
             # ---- returned state ------------------------------------------------------------------
             if r == 'invalid-replace':
-                rep.check(o.value[0] == 'recursion' and o.value[1] == ROLES['STRUCT_HL'],
+                rep.check(o.value[0] == 'recursion' and o.value[1] in HL_CHAIN,
                           'R3', tag + '/returns', site_where, 're-dispatches after replacing the metadata',
                           'ReplaceMetadata does not re-dispatch: returns ' + vstr(o.value)[:120])
             else:
@@ -347,13 +481,15 @@ def run(ctx, rep):
             # ---- R1 / R4: data written to the TOML ---------------------------------------------------
             # (`File::create(p)?.write_all(data)` carries its data as a second argument, like `fs::write(p, data)`)
             seen_writes = [e for e in must if e.kind == 'WRITE' and is_toml(klass(e)) and len(e.args) >= 2 and
-                           e.call.is_('std::fs::write', 'std::fs::File::create', 'std::fs::File::create_new')]
+                           (e.call.is_('std::fs::write', 'std::fs::File::create', 'std::fs::File::create_new') or
+                            # (a WRITE by OpenOptions::open is a builder chain equal to File::create / create_new: Effects2)
+                            e.call.is_('std::fs::OpenOptions::open'))]
             if not seen_writes:
                 # fail closed: a row whose TOML write carries no visible data has no R1 / R4 instance at all
                 rep.unproven('R1', tag + '/types', site_where, 'no write of the content metadata file with visible data on this row: the types written cannot be checked')
             for e in seen_writes:
                 # normal form of the serialised value: closures handed to a shared read-update-write helper are applied
-                data = norm(sl, e.args[1])
+                data = norm(sl, repair_nested_updates(E, e, e.args[1]))
                 lcm = find_agg(data, 'LayerContentMetadata')
                 via = e.via()
                 if r == 'restored-keep' or 'replace_layer_types' in via or (lcm is None and any(x[0] == 'updated' for x in walk(data))):
@@ -368,9 +504,17 @@ def run(ctx, rep):
                     src = toml_source(prog, sl, base)
                     same_file = src is not None and LP.classify(src[0]) == ('TOML',)
                     fields = sorted(repl)
-                    rep.check(same_file and fields == ['.types'], 'R4', tag + '/keep-frame', e.where(),
-                              'serialises the value read from the same TOML with only .types replaced',
-                              'keep rewrite is not frame-preserving: base=%s updated=%s' % (vstr(base)[:100], fields))
+                    hint = toml_read_hint(prog, sl, base, LP.classify) if src is None and fields == ['.types'] else None
+                    if hint is not None:
+                        # the value visibly comes from this layer's TOML, through a way of reading that is not reduced to
+                        # `parse(text of the file)`: undecided, not a breach
+                        rep.unproven('R4', tag + '/keep-frame', e.where(), 'the keep path rewrites a value obtained from this layer\'s TOML via %s, but how '
+                                     'the file becomes that value is not understood (not `toml::from_str(text of the file)` in normal form): base=%s'
+                                     % (hint, vstr(base)[:100]))
+                    else:
+                        rep.check(same_file and fields == ['.types'], 'R4', tag + '/keep-frame', e.where(),
+                                  'serialises the value read from the same TOML with only .types replaced',
+                                  'keep rewrite is not frame-preserving: base=%s updated=%s' % (vstr(base)[:100], fields))
                     if same_file:
                         ll, why = lossless_type(src[1])
                         if ll is None:
@@ -379,15 +523,20 @@ def run(ctx, rep):
                             rep.check(ll, 'R4', tag + '/lossless', e.where(), 'the file is re-' + why, why)
                     tv = some_payload(repl.get('.types', ('unknown',)))
                     ok, why = types_ok(cl, tv, True, sl) if tv is not None else (False, 'types not Some(..)')
-                    rep.check(ok, 'R1', tag + '/types', e.where(), why, 'wrong types on keep: ' + why)
+                    check_types(rep, ok, 'R1', tag + '/types', e.where(), why, 'wrong types on keep: ' + why)
                 elif lcm is not None:
                     f = dict(lcm[3])
                     if r == 'invalid-replace':
                         tv = strip(f.get('types', ('unknown',)))
                         src = toml_source(prog, sl, strip(tv[1])) if tv[0] == 'field' and tv[2] == 'types' else None
                         good = src is not None and LP.classify(src[0]) == ('TOML',)
-                        rep.check(good, 'R1', tag + '/types-preserved', e.where(), 'types <- existing file',
-                                  'ReplaceMetadata does not preserve the existing types: ' + vstr(tv)[:120])
+                        hint = toml_read_hint(prog, sl, strip(tv[1]), LP.classify) if src is None and tv[0] == 'field' and tv[2] == 'types' else None
+                        if hint is not None:
+                            rep.unproven('R1', tag + '/types-preserved', e.where(), 'the types written come from a value obtained from this layer\'s TOML via %s, '
+                                         'but how the file becomes that value is not understood: %s' % (hint, vstr(tv)[:120]))
+                        else:
+                            rep.check(good, 'R1', tag + '/types-preserved', e.where(), 'types <- existing file',
+                                      'ReplaceMetadata does not preserve the existing types: ' + vstr(tv)[:120])
                         mv = strip(f.get('metadata', ('unknown',)))
                         good = any(x[0] == 'variant' and x[2] == 'ReplaceMetadata' for x in walk(mv))
                         rep.check(good, 'R3', tag + '/metadata', e.where(), 'metadata <- ReplaceMetadata payload',
@@ -395,10 +544,11 @@ def run(ctx, rep):
                     else:
                         tv = some_payload(f.get('types', ('unknown',)))
                         ok, why = types_ok(cl, tv, True, sl) if tv is not None else (False, 'types not Some(..): ' + vstr(f.get('types'))[:80])
-                        rep.check(ok, 'R1', tag + '/types', e.where(), why, 'wrong types written for %s: %s' % (r, why))
+                        check_types(rep, ok, 'R1', tag + '/types', e.where(), why, 'wrong types written for %s: %s' % (r, why))
                 else:
                     rep.unproven('R1', tag + '/types', e.where(), 'cannot see the value written to the TOML: ' + vstr(data)[:200])
 
+    rep = real_rep
     # ---- R6 ---------------------------------------------------------------------------------------
     fmts = prog.adt('libcnb_data::sbom::SbomFormat')
     variants = [v['name'] for v in fmts['variants']]
@@ -522,7 +672,7 @@ def run(ctx, rep):
     else:
         d = hl[0]
         ok, why = types_ok(ul, d.args[0], False, sl)
-        rep.check(ok, 'R9', 'types', d.where(), why, 'uncached_layer requests wrong types: ' + why)
+        check_types(rep, ok, 'R9', 'types', d.where(), why, 'uncached_layer requests wrong types: ' + why)
         for i, want in ((1, 'InvalidMetadataAction'), (2, 'RestoredLayerAction')):
             good, why = constant_action(strip(d.args[i]), want)
             rep.check(good, 'R9', 'callback%d' % i, d.where(), 'constant %s::DeleteLayer' % want,
